@@ -335,6 +335,7 @@ def run(report, tier):
             E.shuffle(tasks)
             report.bounds["decimal"] = "all reals satisfying the precondition; every ordered unit pair of every type with reference unit (convert, compare, +, -, /) and every operand unit pair of the 34 derived operators"
             cands = pool.run(report, task, tasks)
+            pool.cross_check(report)
             E.native_confirm(report, "C18", cands, desc, oracle, probes=variants, max_groups=60)
             fut.result()
     finally:
